@@ -225,11 +225,27 @@ def keptBy (p : Option IntOrPct) (R : Int) : Int :=
 
 def nonneg (x : Int) : Int := if x < 0 then 0 else x
 
+/-- the status of a CloneSet with `old` pods that are not of the update revision and `upd` that are, all of them ready -/
+def statusOf (old upd avail : Int) : CtlBlueGreen.Status :=
+  { replicas := old + upd, ready := old + upd, updated := upd, available := avail, updatedReady := upd }
+
+/-- one sync while no pod ever becomes available (`minReadySeconds = MaxReadySeconds`): pods of the update revision exist
+    only as surge (plus what `maxUnavailable` lets go), old pods go only within `maxUnavailable`: (old, updated) afterwards -/
+def heldSync (R want surge unav old upd : Int) : Int × Int :=
+  let cap := if surge + unav < want then surge + unav else want
+  let gone := if unav < want then unav else want
+  (if old > R - gone then R - gone else old, if upd < cap then cap else upd)
+
+/-- one sync with an ordinary `minReadySeconds`: every pod the partition allows is replaced -/
+def freeSync (R want upd : Int) : Int × Int :=
+  let upd' := if upd < want then want else upd
+  (nonneg (R - upd'), upd')
+
 /-- one round of the simulated CloneSet controller (`bgcSim.env`), all pods healthy:
-    a new generation is observed first (nothing else in that round); then, while two revisions exist and the CloneSet is not paused, pods of the update revision
-    appear as far as the partition allows — at once when `minReadySeconds` is an ordinary value (old pods are replaced),
-    but with `minReadySeconds = MaxReadySeconds` no pod ever becomes available: new pods exist only as surge
-    (`maxSurge`), old pods go only within `maxUnavailable`;  with one revision the CloneSet has exactly `replicas` pods. -/
+    a new generation is observed first (nothing else in that round); then, while two revisions exist and the CloneSet is not
+    paused, pods of the update revision appear as far as the partition allows — at once when `minReadySeconds` is an ordinary
+    value (old pods are replaced, and the revision is promoted when all are), but with `minReadySeconds = MaxReadySeconds`
+    only as surge (`heldSync`); with one revision the CloneSet has exactly `replicas` pods. -/
 def bgEnv (b : BW) : BW :=
   match b.wl with
   | none => b
@@ -239,35 +255,28 @@ def bgEnv (b : BW) : BW :=
     | some R =>
       -- the sync that observes a new generation reports the pods it found; what it does to them shows in the next one
       if b.generation ≠ b.observedGeneration then { b with observedGeneration := b.generation } else
-      let b1 := b
       if b.updateRevision ≠ b.currentRevision then
-        if wl.paused then b1 else
+        if wl.paused then b else
         let want := R - keptBy wl.partition R
         let st := wl.status
-        let old := st.ready - st.updatedReady
         if wl.minReadySeconds ≥ maxReady then
-          let surge := nonneg (scaledV ((ruSurge wl.ru).getD (int 0)) R true)
-          let unav := nonneg (scaledV ((ruUnavailable wl.ru).getD (int 0)) R false)
-          let cap := if surge + unav < want then surge + unav else want
-          let upd := if st.updated < cap then cap else st.updated
-          let gone := if unav < want then unav else want
-          let old' := if old > R - gone then R - gone else old
-          { b1 with wl := some { wl with status := { replicas := old' + upd, ready := old' + upd, updated := upd, available := 0,
-                                                      updatedReady := upd } } }
+          let r := heldSync R want (nonneg (scaledV ((ruSurge wl.ru).getD (int 0)) R true))
+                     (nonneg (scaledV ((ruUnavailable wl.ru).getD (int 0)) R false)) (st.ready - st.updatedReady) st.updated
+          { b with wl := some { wl with status := statusOf r.1 r.2 0 } }
         else
-          let upd := if st.updated < want then want else st.updated
-          let old' := nonneg (R - upd)
-          { b1 with wl := some { wl with status := { replicas := old' + upd, ready := old' + upd, updated := upd,
-                                                      available := old' + upd, updatedReady := upd } },
-                    currentRevision := if upd ≥ R then b.updateRevision else b.currentRevision }
+          let r := freeSync R want st.updated
+          { b with wl := some { wl with status := statusOf r.1 r.2 (r.1 + r.2) },
+                   currentRevision := if r.2 ≥ R then b.updateRevision else b.currentRevision }
       else
-        { b1 with wl := some { wl with status := { replicas := R, ready := R, updated := R,
-                                                    available := if wl.minReadySeconds ≥ maxReady then 0 else R, updatedReady := R } } }
+        { b with wl := some { wl with status := { replicas := R, ready := R, updated := R,
+                                                   available := if wl.minReadySeconds ≥ maxReady then 0 else R, updatedReady := R } } }
 
 /-- a new revision admitted by the workload webhook (`handleCloneSet`): held back at partition 100 %, marked in progress.
     Pods of a revision that is no longer the update revision are not "updated" any more; when the new update revision is
     the current one (a rollback) the pods of the current revision are. -/
 def bgRelease (rev : String) (b : BW) : BW :=
+  -- an unchanged template is not a release: the webhook does not act
+  if rev = b.updateRevision then b else
   match b.wl with
   | none => b
   | some wl =>
